@@ -260,11 +260,28 @@ def run(ctx: Ctx):
         an = [n for n in gr.nodes if a in n.calls()]
         facts = must_facts(gr, Atomizer(model, rec.module, nc), an[0]) if an else set()
         # allowed: table membership, and "the recorded origin is known" (rec_key is not None)
+        def _looked_up(name):
+            # `rec = self.<origin table>.get(key)`: `rec is not None` is the membership test
+            return any(isinstance(x, ast.Assign) and any(isinstance(t, ast.Name) and t.id == name for t in x.targets)
+                       and isinstance(x.value, ast.Call) and isinstance(x.value.func, ast.Attribute)
+                       and x.value.func.attr == "get" and A.dotted(x.value.func.value) == f"self.{ORIG}"
+                       for x in ast.walk(rec.node))
         bad = [f for f in facts if not (f[1] == "in-expr" and f[2] in (f"self.{ORIG}", f"self.{WIN}"))
+               and not (f[1] == "is" and f[2] is None and f[3] is False and isinstance(f[0], str)
+                        and f[0].isidentifier() and _looked_up(f[0]))
                and not (rec_key is not None and f[0] == rec_key and
                         ((f[1] == "is" and f[2] is None and f[3] is False) or (f[1] == "truthy" and f[3])))]
         if bad:
             ctx.fail(cons + "#conditional", rec.loc(a), f"the answered id is only remembered under {bad}")
+    # "within the configured number of most recent answers": the size is read when an origin's
+    # window is created; a later change of retransmit_queue_size must reach existing windows too
+    cons = "_record_answer:window-size-follows-setting"
+    ctx.inst(cons)
+    if "maxlen" in ast.unparse(rec.node) and not any(
+            isinstance(x, ast.Compare) and "maxlen" in ast.unparse(x) for x in ast.walk(rec.node)):
+        ctx.fail(cons, rec.loc(), "an origin's window is created with deque(maxlen=retransmit_queue_size) and "
+                 "never resized: a change of the setting on a running node is ignored for every origin that "
+                 "already has a window - and the first answer to a peer is its CEA (findings/audit3/C17-1)")
     # callers
     cons = "_record_answer:callers"
     ctx.inst(cons)
@@ -353,9 +370,18 @@ def run(ctx: Ctx):
                 resets = bool(nxt) and nxt[0].kind == "stmt" and isinstance(nxt[0].ast, ast.Assign) \
                     and any(A.dotted(x) == ov.id for x in nxt[0].ast.targets) \
                     and isinstance(nxt[0].ast.value, ast.Constant) and nxt[0].ast.value.value is None
+                def _bytes_to_bytes(n_):
+                    # `x = x.lower()` (bytes in, bytes out) on the branch on which x is bytes
+                    v_ = getattr(n_.ast, "value", None)
+                    if not (isinstance(v_, ast.Call) and isinstance(v_.func, ast.Attribute) and not v_.args
+                            and v_.func.attr in ("lower", "upper", "casefold", "strip")
+                            and A.dotted(v_.func.value) == ov.id):
+                        return False
+                    return any(f_[0].replace(" ", "") == f"isinstance({ov.id},bytes)" and f_[1] == "truthy"
+                               and f_[3] for f_ in _mf(g, at, n_))
                 restored = [n_ for n_ in g.nodes if n_.kind == "stmt" and n_ is not (nxt[0] if nxt else None)
                             and any(A.dotted(x) == ov.id for x in n_.stores())
-                            and n_ in g.reach([t_], include_starts=False)]
+                            and n_ in g.reach([t_], include_starts=False) and not _bytes_to_bytes(n_)]
                 if resets and g.dominated(s, [t_]) and not restored:
                     okh = True
         if not okh:
@@ -389,8 +415,16 @@ def run(ctx: Ctx):
     rk_ok = False
     if rec_key:
         for n in A.walk_no_nested(rec.node):
-            if isinstance(n, ast.Assign) and isinstance(n.targets[0], ast.Tuple) \
-                    and isinstance(n.value, ast.Subscript) and A.dotted(n.value.value) == f"self.{ORIG}":
+            src_ = n.value if isinstance(n, ast.Assign) else None
+            if isinstance(src_, ast.Name):
+                # `rec = self.<table>.get(key)` ... `origin, t = rec`
+                ds_ = [x.value for x in A.walk_no_nested(rec.node) if isinstance(x, ast.Assign)
+                       and any(isinstance(t, ast.Name) and t.id == src_.id for t in x.targets)]
+                src_ = ds_[0] if len(ds_) == 1 else None
+            from_table = (isinstance(src_, ast.Subscript) and A.dotted(src_.value) == f"self.{ORIG}") or \
+                (isinstance(src_, ast.Call) and isinstance(src_.func, ast.Attribute) and src_.func.attr == "get"
+                 and A.dotted(src_.func.value) == f"self.{ORIG}")
+            if isinstance(n, ast.Assign) and isinstance(n.targets[0], ast.Tuple) and from_table:
                 first = n.targets[0].elts[0]
                 if isinstance(first, ast.Name) and first.id == rec_key:
                     rk_ok = True
@@ -406,6 +440,26 @@ def run(ctx: Ctx):
         ctx.fail(cons, R.f.loc(), f"the origin is recorded as `{orig_key}` but the duplicate check "
                  f"looks the window up under `{lookup}`: for some Origin-Host values (e.g. with "
                  f"upper-case letters) an answered request is never recognised as duplicate")
+    # "origin host ... equal": Origin-Host is a DiameterIdentity, the same host whatever the case
+    # it is spelled in (the node folds names everywhere else: add_peer, receive_cer, realms).  The
+    # value recorded as the origin - the key of the windows on both sides - is case-folded
+    ctx.inst(cons + "#case-folded")
+    folded = False
+    for v_ in sorted(ovars):
+        for x in A.walk_no_nested(R.f.node):
+            if isinstance(x, ast.Assign) and any(isinstance(t, ast.Name) and t.id == v_ for t in x.targets):
+                e_ = x.value
+                while isinstance(e_, ast.Call) and isinstance(e_.func, ast.Attribute) \
+                        and e_.func.attr in ("lower", "casefold", "strip"):
+                    if e_.func.attr in ("lower", "casefold"):
+                        folded = True
+                    e_ = e_.func.value
+    if ovars and not folded:
+        ctx.fail(cons + "#case-folded", R.f.loc(), f"the origin ({sorted(ovars)}) is recorded and looked up as the "
+                 f"bytes received: a T-flagged repeat whose Origin-Host differs in case from the original "
+                 f"(Client.Example / client.example) is looked up in another window, delivered to the "
+                 f"application again and answered 2001",
+                 expected="<origin>.lower() (bytes fold) where the origin is read", observed="raw bytes")
     if rec_key is not None and not rk_ok:
         ctx.fail(cons + "#record", rec.loc(), f"_record_answer files the answered id under "
                  f"`{rec_key}`, which is not the origin recorded on reception")
